@@ -472,27 +472,38 @@ Example C20_qualify_unambiguous_ex :
   = [(QO 1 10, Some 1); (QO 2 1, Some 2); (QO 2 2, None); (QO 3 10, Some 3)].
 Proof. vm_compute. split; reflexivity. Qed.
 
-(* REFUTED: "a reference to an object carries a qualifier exactly when the object's block does".
-   specutil.ObjectRef only applies the pass-2 condition (same name in another schema); an object
-   named like a schema whose name became a qualifier is written [enum "s3" "s1"] by pass 3 but
-   referred to as [enum.s1].  Reproduced on the real code: postgres.MarshalHCL of such a realm gives
-   a document whose column type refers to a block it does not contain (oracle class
-   qualify-dangling-ref, known finding C20-qualify-objectref-schema-named). *)
-Theorem C20_ObjectRef_matches_qualifier_refuted :
-  exists specs o, In o specs /\ ObjectRef_qualified specs o = false /\ qualifier_spec specs o = Some (q_schema o).
-Proof. exact ObjectRef_qualified_refuted. Qed.
-Print Assumptions C20_ObjectRef_matches_qualifier_refuted.
-(* what does hold: a qualified reference always points to a qualified block, and the two agree
-   whenever the object's label is not the name of a schema used as a qualifier *)
-Theorem C20_ObjectRef_matches_qualifier_except : forall specs o,
-  (ObjectRef_qualified specs o = true -> qualifier_spec specs o = Some (q_schema o)) /\
-  (schema_used specs (q_label o) = false ->
-   (ObjectRef_qualified specs o = true <-> qualifier_spec specs o <> None)).
-Proof. exact (fun specs o => conj (ObjectRef_qualified_sound specs o) (ObjectRef_qualified_except specs o)). Qed.
-Print Assumptions C20_ObjectRef_matches_qualifier_except.
+(* "A reference to an object carries a qualifier exactly when the object's block does."  True of
+   specutil.ObjectRef since fix C20-qualify-objectref-schema-named (ObjectRef applies both conditions
+   of QualifyObjects: objectConflict || qualifierSchema). *)
+Theorem C20_ObjectRef_matches_qualifier : forall specs o,
+  (ObjectRef_qualified specs o = true <-> qualifier_spec specs o = Some (q_schema o)) /\
+  (ObjectRef_qualified specs o = false <-> qualifier_spec specs o = None).
+Proof. exact ObjectRef_qualified_matches. Qed.
+Print Assumptions C20_ObjectRef_matches_qualifier.
 Example C20_ObjectRef_ex :
-  ObjectRef_qualified [QO 1 10; QO 2 10; QO 3 1] (QO 1 10) = true /\
-  ObjectRef_qualified [QO 1 10; QO 2 10; QO 3 1] (QO 3 1) = false.
+  ObjectRef_qualified [QO 1 10; QO 2 10; QO 3 1; QO 3 11] (QO 1 10) = true /\
+  ObjectRef_qualified [QO 1 10; QO 2 10; QO 3 1; QO 3 11] (QO 3 1) = true /\
+  ObjectRef_qualified [QO 1 10; QO 2 10; QO 3 1; QO 3 11] (QO 3 11) = false.
+Proof. vm_compute. repeat split; reflexivity. Qed.
+
+(* BEFORE the fix ObjectRef only applied the pass-2 condition (same name in another schema): an
+   object named like a schema whose name became a qualifier was written [enum "s3" "s1"] by the last
+   loop of QualifyObjects but referred to as [enum.s1] (oracle class qualify-dangling-ref, known finding
+   C20-qualify-objectref-schema-named, reproduced on the unpatched tree).  Kept because
+   TableSpecRef / ViewSpecRef still have that shape (not reached by the OSS marshalers). *)
+Theorem C20_ObjectRef_before_fix_refuted :
+  exists specs o, In o specs /\ ObjectRef_qualified_before_fix specs o = false /\ qualifier_spec specs o = Some (q_schema o).
+Proof. exact ObjectRef_qualified_before_fix_refuted. Qed.
+Print Assumptions C20_ObjectRef_before_fix_refuted.
+Theorem C20_ObjectRef_before_fix_except : forall specs o,
+  (ObjectRef_qualified_before_fix specs o = true -> qualifier_spec specs o = Some (q_schema o)) /\
+  (schema_used specs (q_label o) = false ->
+   (ObjectRef_qualified_before_fix specs o = true <-> qualifier_spec specs o <> None)).
+Proof. exact (fun specs o => conj (ObjectRef_qualified_before_fix_sound specs o) (ObjectRef_qualified_before_fix_except specs o)). Qed.
+Print Assumptions C20_ObjectRef_before_fix_except.
+Example C20_ObjectRef_before_fix_ex :
+  ObjectRef_qualified_before_fix [QO 1 10; QO 2 10; QO 3 1] (QO 1 10) = true /\
+  ObjectRef_qualified_before_fix [QO 1 10; QO 2 10; QO 3 1] (QO 3 1) = false.
 Proof. vm_compute. split; reflexivity. Qed.
 
 (** * sql/postgres *)
